@@ -14,7 +14,7 @@ RULE = ("Hypothesis builds a benign ODE model (linear chains, epidemic mass-acti
         "list / array / int-array data, list / array / tuple x0), parameters theta*, x0, t0, an observation grid of 3-12 times, an observed-state selection (one name as str, a 1-list, or "
         "several names in a generated order), the loss class with scalar / per-state / per-observation spread, weights (Square, Normal), an "
         "optional target_param subset, evaluation parameters theta != theta* and data = reference trajectory at theta* (optionally perturbed; "
-        "rounded to positive integers for count losses). Oracle: trajectory from an independent integrator on the abstract model's own "
+        "rounded to positive integers for count losses). In a quarter of the cases a second loss object (another data set: other parameters, initial state, times) is built on the same model object and evaluates its cost before each of our calls. Oracle: trajectory from an independent integrator on the abstract model's own "
         "right-hand side (two references must agree), selected columns in the given order, then the class formula (mpmath reference "
         "log-densities): |cost - ref| <= 1e-5(1+|ref|); residual(theta) elementwise; costIV([theta, x0']) from x0'; square loss at theta* with "
         "unperturbed data <= 1e-10*n*(1+max|y|)^2. Non-trivial = (>=2 observed states not in declaration order, or a target_param subset, or "
@@ -43,6 +43,8 @@ def strategy(tier):
         # object on the same model) has written other values into the shared model's parameters
         c["default_theta_after_foreign_write"] = draw(st.integers(0, 3)) == 0
         c["foreign_factors"] = [draw(st.sampled_from([0.5, 0.8, 1.3, 2.0])) for _ in c["model"]["params"]]
+        # a second loss object (another data set) built on the same model object and evaluated in between
+        c["companion"] = draw(st.integers(0, 3)) == 0
         return c
     return case()
 
@@ -124,6 +126,10 @@ def oracle(case, rec):
                 raise PropertyViolation(key + "/cost-default-theta", "cost() with theta at its default = %.12g, reference loss at the "
                                         "parameters the loss object holds (%s) = %.12g" % (got_s, stored, ref_s), case)
     rec.label("order:" + ("costIV-first" if case.get("iv_first") else "cost-first"))
+    if case.get("companion"):
+        comp = call(key + "/companion-construct", case, lossgen.companion, case, model)
+        rec.label("companion-loss-object-on-same-model")
+        lossgen.interleave(obj, ["cost", "residual", "costIV"], lambda: call(key + "/companion-cost", case, comp.cost))
     if case.get("iv_first"):
         _check_costIV(case, rec, obj, key, m, su, names, y, th, free, times, cols)
     got = call(key + "/cost", case, obj.cost, np.array(free))
